@@ -74,6 +74,9 @@ def gen_sched(ctx):
         # boundary: end time on / before the start times
         spec = sc.gen_dag(rng, kinds=["scale", "lin"], pull_comps=False, statics=False, offsets=rng.random() < 0.5)
         spec["end"] = rng.choice([0, 0, 1, 2, 3])
+    if r < 0.75 and rng.random() < 0.3:
+        # an adapter (pass-through or fixed delay) that fans out to two consumers, next to sibling links of the same output
+        spec = sc.add_branching_adapter(rng, spec)
     for c in spec["comps"]:
         if c["kind"] == "time":
             c["mix"] = True
